@@ -271,8 +271,11 @@ func c18Nep2(co *caseOut, in c18xInput) {
 	if e != ref {
 		bad("NEP2Encrypt differs from the NEP-2 definition evaluated independently (NFC of the passphrase, scrypt, AES-256-ECB of key XOR derived half, 01 42 e0 ++ address hash ++ body under Base58Check)", map[string]string{"impl": e, "ref": ref})
 	}
-	if ok, why := gives(e, string(p)); !ok {
-		bad("NEP-2: the passphrase a key was encrypted with does not decrypt it", why)
+	std := in.Mode&1 == 1 // the standard scrypt parameters cost 0.3 s per derivation: the laws that tell the mutants apart only
+	if !std {
+		if ok, why := gives(e, string(p)); !ok {
+			bad("NEP-2: the passphrase a key was encrypted with does not decrypt it", why)
+		}
 	}
 	if ok, why := gives(ref, string(p)); !ok {
 		bad("NEP-2: NEP2Decrypt does not open an envelope built by the NEP-2 definition (independent evaluation) with the right passphrase", why)
@@ -283,6 +286,11 @@ func c18Nep2(co *caseOut, in c18xInput) {
 		} else {
 			bad("NEP-2: a DIFFERENT passphrase (not NFC-equal) decrypts the key", map[string]string{"p": hx(p), "q": hx(q), "class": bucket})
 		}
+	}
+	if std {
+		co.add("nep2", bucket+"-std", !bytes.Equal(p, q) && bucket != "different", in, e,
+			fmt.Sprintf("CNep2Frame %s %s %s", coqStrZ(priv.Address()), coqBytes(body), coqStrZ(e)))
+		return
 	}
 	e2, err := keys.NEP2Encrypt(priv, string(q), params)
 	if err != nil {
@@ -349,13 +357,18 @@ func c18Nep2Vector(co *caseOut, in c18xInput) {
 	if err != nil {
 		panic(err)
 	}
-	e, err := keys.NEP2Encrypt(priv, v.pass, params)
-	if err != nil || e != v.enc {
-		bad("NEP2Encrypt does not reproduce the published vector", e)
-	}
+	// (mode 1: decryption only - each derivation with the standard parameters costs 0.3 s)
 	k, err := keys.NEP2Decrypt(v.enc, v.pass, params)
 	if err != nil || !bytes.Equal(k.Bytes(), priv.Bytes()) {
 		bad("NEP2Decrypt does not open the published vector", fmt.Sprint(err))
+	}
+	if in.Mode == 1 {
+		co.hist["nep2vec/decrypt-only"]++
+		return
+	}
+	e, err := keys.NEP2Encrypt(priv, v.pass, params)
+	if err != nil || e != v.enc {
+		bad("NEP2Encrypt does not reproduce the published vector", e)
 	}
 	ref, body, rerr := c18RefNEP2(priv.Bytes(), priv.Address(), norm.NFC.Bytes([]byte(v.pass)), params)
 	if rerr != nil || ref != v.enc {
@@ -573,11 +586,15 @@ func c18Nep2Generate(co *caseOut, r *rng, cf *commonFlags) {
 	}
 	// the standard scrypt parameters: the published vectors, and one pair of each class
 	for i := range c18Nep2Vectors {
-		c18xRun(co, "nep2vec", c18xInput{N: i})
+		mode := 1
+		if cf.tier != "quick" || i == int(cf.seed%3) {
+			mode = 0
+		}
+		c18xRun(co, "nep2vec", c18xInput{N: i, Mode: mode})
 	}
-	run([]byte("caf\u00e9 \ufb01n"), []byte("cafe\u0301 \ufb01n"), 1)
 	run([]byte("caf\u00e9 \ufb01n"), []byte("caf\u00e9 fin"), 1)
 	if cf.tier != "quick" {
+		run([]byte("caf\u00e9 \ufb01n"), []byte("cafe\u0301 \ufb01n"), 1)
 		for i := 0; i < 6; i++ {
 			p, q := c18GenPassPair(r, 1+i%2)
 			run(p, q, 1)
